@@ -1002,7 +1002,7 @@ pub fn exec_fb(case: &PCase, sample_closed: bool, fb: &[i64]) -> Trace {
   }
   // let everything that is still scheduled run (bounded: periodic sources never end)
   crate::stamp::set(case.script.len());
-  let (q, firings) = vtime::drain_count(12);
+  let (q, firings) = vtime::drain_count(24);
   tr.quiescent = q;
   tr.drain_firings = firings;
   tr.counters_at_terminal = lock!(probe.snap).clone();
